@@ -53,6 +53,8 @@ func isInvokeOf(c *ssa.CallCommon, ifaceQual, method string, pg *prog.Program) b
 }
 
 func runC01(c *Ctx) {
+	c.R.Rule("RS-no-request-time-state", "request handling writes no state that outlives the request (package-level variables, objects built at start-up, constructor variables captured by handlers) declared in the packages implementing this property", 1)
+	runStateless(c, "RS-no-request-time-state", "main", "pkg/middleware", "pkg/authentication", "pkg/ip")
 	r := c.R
 	pg := c.P
 	r.Rule("R1-sink-gating", "every protected sink (upstream handler load, 202 writer, user-info success writes) requires getAuthenticatedSession err==nil on the path", 5)
